@@ -239,16 +239,21 @@ Section Sim.
       + apply in_app_or in H3. destruct H3 as [H3|[H3|[]]]; [apply H5'; exact H3|].
         subst x. unfold sl_end. cbn. discriminate.
     - (* Close n *)
-      cbn [item_ok] in Hx. repeat (apply andb_true_iff in Hx; destruct Hx as [Hx ?]).
-      destruct (strip_nonempty n H) as [c [r Hs]].
+      cbn [item_ok] in Hx. apply andb_true_iff in Hx. destruct Hx as [Hx ?].
       cbn [stepF closing_name]. change (SLASH =? SLASH)%Z with true. cbn iota.
-      unfold pop_for. rewrite Hs. rewrite <- Hs.
-      cbn [sem_step]. destruct HI as [H1' [H2' HI']]. rewrite <- H2'. rewrite remove_named_pop.
-      destruct (pop_named (fun e : entryF => snd (fst e)) (norm (strip n)) stk) as [[e stk']|] eqn:E.
-      + destruct (pop_named_split _ _ _ _ _ E) as [a [b [Hstk Hstk']]]. subst stk stk'.
-        destruct e as [[idx nm] ps]. cbn [sim_res].
-        apply (inv_close plain a (idx, nm, ps) b slots out). cbn [Inv]. auto.
-      + cbn [sim_res]. reflexivity.
+      cbn [sem_step]. destruct HI as [H1' [H2' HI']].
+      destruct (strip n) as [|c r] eqn:Hs.
+      + (* blank name: implicit close *)
+        cbn [pop_for]. destruct stk as [|e b].
+        * cbn [map] in H2'. subst opn. cbn [sim_res]. reflexivity.
+        * cbn [map] in H2'. subst opn. destruct e as [[idx nm] ps]. cbn [sim_res].
+          apply (inv_close plain [] (idx, nm, ps) b slots out). cbn [Inv app map]. auto.
+      + unfold pop_for. rewrite <- H2'. rewrite remove_named_pop.
+        destruct (pop_named (fun e : entryF => snd (fst e)) (norm (c :: r)) stk) as [[e stk']|] eqn:E.
+        * destruct (pop_named_split _ _ _ _ _ E) as [a [b [Hstk Hstk']]]. subst stk stk'.
+          destruct e as [[idx nm] ps]. cbn [sim_res].
+          apply (inv_close plain a (idx, nm, ps) b slots out). cbn [Inv]. auto.
+        * cbn [sim_res]. reflexivity.
     - (* CloseTop *)
       cbn [stepF closing_name]. change (SLASH =? SLASH)%Z with true. cbn iota.
       change (strip []) with (@nil Z). cbn [pop_for sem_step].
